@@ -374,7 +374,7 @@ func c20Sites() map[string]string {
 }
 
 func runC20(c *evid.Ctx) {
-	c.Rule("random operation sequences (C05 alphabet incl. delete-all, DeleteRange over an empty tail, high base indexes, base-index resets, reopen) with a recording collector; at quiescence every WAL counter must equal the model's total (entries, encoded bytes via the codec, calls, reads, stable gets/sets, head/tail truncation = entries actually removed, rotations = segments created - initial - tail truncations - delete-alls - base-index resets); every emitted name must be in MetricDefinitions and must not make the bundled AtomicCollector panic; the bundled GoMetricsCollector (prefix slice with spare capacity) in front of a totalling sink, with reader emissions overlapping writer emissions (one observation held inside the sink while appends emit, and a 4-reader stress), must deliver every counter total under its own name; verifier histories (leader, follower, in-flight and at-rest corruption, blocked ReportFn) do the same for the verifier's metrics; non-trivial = distinct (counter, zero/non-zero expected value) checks",
+	c.Rule("random operation sequences (C05 alphabet incl. delete-all, DeleteRange over an empty tail, high base indexes, base-index resets, reopen) with a recording collector; at quiescence every WAL counter must equal the model's total (entries, encoded bytes via the codec, calls, reads, stable gets/sets, head/tail truncation = entries actually removed, rotations = segments created - initial - tail truncations - delete-alls - base-index resets); every emitted name must be in MetricDefinitions and must not make the bundled AtomicCollector panic; the bundled GoMetricsCollector (prefix slice with spare capacity) in front of a totalling sink, with reader emissions overlapping writer emissions (one observation held inside the sink while appends emit, and a 4-reader stress), must deliver every counter total under its own name; verifier histories (leader, follower, in-flight and at-rest corruption, blocked ReportFn, appends refused once by the underlying store and sent again) do the same for the verifier's metrics; non-trivial = distinct (counter, zero/non-zero expected value) checks",
 		"operations", "counter_checks")
 	n := 4000
 	if !quick(c) {
@@ -450,7 +450,7 @@ func runC20(c *evid.Ctx) {
 // c20Verifier runs small verifier histories that reach every verifier metric.
 func c20Verifier(c *evid.Ctx, declared map[string]bool, all *recCollector) {
 	isCP := func(l *raft.Log) (bool, error) { return len(l.Data) > 0 && l.Data[0] == 'C', nil }
-	for round := 0; round < 6; round++ {
+	for round := 0; round < 8; round++ {
 		rec := newRec()
 		atomicC := metrics.NewAtomicCollector(verifier.MetricDefinitions)
 		col := &teeCollector{rec: rec, all: all, atomic: atomicC, c: c}
@@ -471,30 +471,52 @@ func c20Verifier(c *evid.Ctx, declared map[string]bool, all *recCollector) {
 		if round == 2 {
 			fol = &corruptingStore{LogStore: folStore, at: 4}
 		}
-		leader := verifier.NewLogStore(leaderStore, isCP, func(verifier.VerificationReport) {}, col)
-		follower := verifier.NewLogStore(fol, isCP, reportFn, col)
+		// rounds 6 and 7: the underlying store refuses some appends once (nothing is stored);
+		// the same entries are then sent again. Refused attempts must not count.
+		lfail := &refusingStore{LogStore: leaderStore}
+		ffail := &refusingStore{LogStore: fol}
+		leader := verifier.NewLogStore(lfail, isCP, func(verifier.VerificationReport) {}, col)
+		follower := verifier.NewLogStore(ffail, isCP, reportFn, col)
 		cps := uint64(0)
+		gaveUp := false
 		for i := uint64(1); i <= 40; i++ {
 			l := &raft.Log{Index: i, Term: 1, Type: raft.LogCommand, Data: []byte(fmt.Sprintf("d%d", i))}
 			if i%5 == 0 {
 				l.Data = []byte("C")
 				cps++
 			}
+			if round == 7 && i%5 <= 1 {
+				lfail.refuse.Store(true)
+				if err := leader.StoreLogs([]*raft.Log{model.CopyLog(l)}); err == nil {
+					c.Violation("C20:verifier-store", "the underlying store refused the append but the middleware returned nil", nil)
+				}
+				c.Count("verifier_refused_appends", 1)
+			}
 			if err := leader.StoreLogs([]*raft.Log{l}); err != nil {
 				c.Violation("C20:verifier-store", err.Error(), nil)
 			}
 			fl := model.CopyLog(l)
+			if round >= 6 && i%5 <= 1 {
+				ffail.refuse.Store(true)
+				if err := follower.StoreLogs([]*raft.Log{model.CopyLog(fl)}); err == nil {
+					c.Violation("C20:verifier-store", "the underlying store refused the append but the middleware returned nil", nil)
+				}
+				c.Count("verifier_refused_appends", 1)
+			}
 			if round == 1 && i == 7 {
 				fl.Data = []byte("corrupted in flight")
 			}
 			if err := follower.StoreLogs([]*raft.Log{fl}); err != nil {
 				c.Violation("C20:verifier-store", err.Error(), nil)
 			}
-			if round != 3 {
-				// let the verifier drain so that no report is dropped in these rounds
-				waitFor(func() bool {
+			if round != 3 && !gaveUp {
+				// let the verifier drain so that no report is dropped in these rounds (after one
+				// timeout the counters are judged as they are instead of waiting again every step)
+				if !waitFor(func() bool {
 					return rec.get("ranges_verified")+rec.get("dropped_reports") >= countCP(rec)
-				})
+				}) {
+					gaveUp = true
+				}
 			}
 		}
 		if round == 3 {
@@ -538,6 +560,20 @@ func waitFor(cond func() bool) bool {
 	}
 	return true
 }
+
+// refusingStore fails the next StoreLogs once when told to; nothing is stored.
+type refusingStore struct {
+	raft.LogStore
+	refuse atomic.Bool
+}
+
+func (s *refusingStore) StoreLogs(ls []*raft.Log) error {
+	if s.refuse.CompareAndSwap(true, false) {
+		return fmt.Errorf("refusingStore: injected transient append failure")
+	}
+	return s.LogStore.StoreLogs(ls)
+}
+func (s *refusingStore) StoreLog(l *raft.Log) error { return s.StoreLogs([]*raft.Log{l}) }
 
 // corruptingStore returns an altered entry for one index (at-rest corruption).
 type corruptingStore struct {
